@@ -16,7 +16,7 @@ import (
 
 func init() { registry["C05"] = checkC05 }
 
-const scAllKinds = `{"local","local2","use","assign","assign2","do","while","if","repeat","fornum","forin","lfunc","lefunc","gfunc","meth","cfunc","file"}`
+const scAllKinds = `{"local","local2","use","assign","assign2","do","while","if","repeat","fornum","forin","lfunc","lefunc","gfunc","meth","cfunc","iassign","file"}`
 
 // scAvoid is the Avoid constant of Scope.tla for the current check (set by the family before scopeRuns).
 var scAvoid = "{}"
@@ -96,7 +96,7 @@ type c05Data struct {
 
 type c05Query struct {
 	occ  int
-	end  bool // queried at the last character instead of the first
+	end  bool // queried at the last character / at the right end instead of the first character
 	step int
 }
 
@@ -111,6 +111,7 @@ func c05Build(id int, raw json.RawMessage) *Job {
 		pc.Steps = append(pc.Steps, openStep(f, r.Text[i]))
 	}
 	d := &c05Data{tc: &tc, r: r}
+	hv := hash64(string(raw), scSeed)
 	for i, o := range r.Occ {
 		pc.Steps = append(pc.Steps, proto.Step{M: "textDocument/definition", P: posParams(r.Files[o.File], o.Line, o.Col)})
 		d.q = append(d.q, c05Query{i, false, len(pc.Steps) - 1})
@@ -118,6 +119,13 @@ func c05Build(id int, raw json.RawMessage) *Job {
 			pc.Steps = append(pc.Steps, proto.Step{M: "textDocument/definition", P: posParams(r.Files[o.File], o.Line, o.Col+len(o.Name)-1)})
 			d.q = append(d.q, c05Query{i, true, len(pc.Steps) - 1})
 		}
+		// the cursor may also stand at the right end of the identifier (just behind its last character): every second
+		// occurrence (seeded) is asked there too
+		if (hv+uint64(i))%2 != 0 {
+			continue
+		}
+		pc.Steps = append(pc.Steps, proto.Step{M: "textDocument/definition", P: posParams(r.Files[o.File], o.Line, o.Col+len(o.Name))})
+		d.q = append(d.q, c05Query{i, true, len(pc.Steps) - 1})
 	}
 	return &Job{PC: pc, Data: d}
 }
